@@ -3,9 +3,13 @@ package main
 import (
 	"encoding/json"
 	"fmt"
+	"regexp"
 	"sort"
 	"strconv"
+	"strings"
 )
+
+var longNumberRE = regexp.MustCompile(`[0-9]{35,}`)
 
 func init() {
 	generators["C01"] = func(tier, out string, sum *Summary) {
@@ -128,6 +132,12 @@ func genSpecCases(prop, tier, out string, sum *Summary, g *Gen, depth int) {
 		id++
 		e, doc := sc.e, sc.doc
 		text := unparse(e)
+		if (strings.Contains(text, "%") || strings.Contains(text, "//")) && longNumberRE.MatchString(toJSON(doc)) {
+			// a remainder or floored quotient of a number with more than 34 digits: the operand itself is outside the
+			// decimals (it is rounded when it is read), and these two operators are not continuous in it
+			sum.count("not-compared/remainder-of-unrepresentable-operand")
+			continue
+		}
 		if hasEnum(e) && orderSensitive(e) {
 			if buildsObjects(e) {
 				continue
